@@ -47,13 +47,13 @@ def run(ctx, anchors=None):
     if len(call) != 1:
         raise AnalysisBroken("R02.1: operation step call not found in the stepper")
     call = call[0]
-    succ = None
-    for (blk, s_, c, t) in scfg.cond_edges():
-        if c == call["id"] and t:
-            succ = s_
+    from . import common as _cm2
+    succ, fail_ = _cm2.call_result_edges(stepper, scfg, call)
+    if succ is None or fail_ is None:
+        raise AnalysisBroken("R02.1: the result of the operation step is not branched on in the stepper")
     incs = [n for n in stepper.nodes() if n["k"] == "un" and n["op"] == "++" and astq.estr(n["e"]).endswith("opcode_pos")]
     ctx.site()
-    ctx.inst(succ is not None and len(incs) == 1 and scfg.must_pass_from_block(succ, incs) and scfg.position(incs[0])[0] not in scfg.reachable_from([s_ for (b, s_, c, t) in scfg.cond_edges() if c == call["id"] and not t][0]),
+    ctx.inst(succ is not None and len(incs) == 1 and scfg.must_pass_from_block(succ, incs) and scfg.position(incs[0])[0] not in scfg.reachable_from(fail_),
              "R02.1", "opcode_pos-advanced-per-step", stepper.loc(incs[0]) if incs else stepper.loc(call),
              "after every successful operation step the stepper increments opcode_pos exactly once (as EvalScript does)",
              "the session stepper does not advance opcode_pos after a successful operation (EvalScript does at %s): OP_CODESEPARATOR records codeseparator_pos = %s for every separator, so BIP342 signatures are rejected"
